@@ -28,6 +28,7 @@ import (
 	"time"
 
 	"github.com/AdguardTeam/AdGuardHome/internal/schedule"
+	"gopkg.in/yaml.v3"
 )
 
 // zzC18Doc is a serialised schedule in the spec's vocabulary: zone name and
@@ -51,14 +52,39 @@ func (d *zzC18Doc) equal(o *zzC18Doc) (ok bool) {
 	return true
 }
 
+// zzC18Pair is the state of the two holders, "g" and "c".
+type zzC18Pair struct {
+	G *zzC18Doc `json:"g"`
+	C *zzC18Doc `json:"c"`
+}
+
+func (p *zzC18Pair) of(h string) (d *zzC18Doc) {
+	if p == nil {
+		return nil
+	}
+
+	if h == "c" {
+		return p.C
+	}
+
+	return p.G
+}
+
+// zzC18Step is one request of a walk: act = "put" (update API), "null"
+// (update API, "schedule": null), "yaml" / "json" (restart of the holder from a
+// configuration document decoded on top of the defaults), to holder H.  Out,
+// Dst and Eff are the spec's reply, successor state and Contains table of
+// both holders (absent: observe only).
 type zzC18Step struct {
-	I     int        `json:"i"`
-	Reset bool       `json:"reset"`
-	Doc   *zzC18Doc  `json:"doc"`
-	Out   string     `json:"out"`
-	Src   *zzC18Doc  `json:"src"`
-	Dst   *zzC18Doc  `json:"dst"`
-	Eff   [][2]int64 `json:"eff"`
+	I     int                   `json:"i"`
+	Reset bool                  `json:"reset"`
+	H     string                `json:"h"`
+	Act   string                `json:"act"`
+	Doc   *zzC18Doc             `json:"doc"`
+	Out   string                `json:"out"`
+	Src   *zzC18Pair            `json:"src"`
+	Dst   *zzC18Pair            `json:"dst"`
+	Eff   map[string][][2]int64 `json:"eff"`
 }
 
 // zzC18MsExact writes ms milliseconds + ns nanoseconds exactly as a decimal
@@ -116,12 +142,17 @@ type zzC18Holder struct {
 }
 
 func zzC18NewHolder(t testing.TB) (h *zzC18Holder) {
+	// The default configuration, as home/config.go has it.
+	return zzC18NewHolderWith(t, &BlockedServices{Schedule: schedule.EmptyWeekly(), IDs: []string{zzC18GlobalSvc}})
+}
+
+func zzC18NewHolderWith(t testing.TB, bs *BlockedServices) (h *zzC18Holder) {
 	h = &zzC18Holder{}
 	d, err := New(&Config{
-		BlockedServices:      &BlockedServices{Schedule: schedule.EmptyWeekly(), IDs: []string{zzC18GlobalSvc}},
+		BlockedServices:      bs,
 		ApplyClientFiltering: func(_ string, _ netip.Addr, _ *Settings) {},
 		ConfigModified:       func() {},
-	}, []Filter{{ID: 0, Data: []byte("||example.org^\n")}})
+	}, nil)
 	if err != nil {
 		t.Fatalf("creating filter: %v", err)
 	}
@@ -130,6 +161,56 @@ func zzC18NewHolder(t testing.TB) (h *zzC18Holder) {
 	h.d = d
 
 	return h
+}
+
+// putNull sends an update without a schedule.
+func (h *zzC18Holder) putNull() (ok bool, detail string) {
+	body := fmt.Sprintf("{\"ids\":[%q],\"schedule\":null}", zzC18GlobalSvc)
+	rec := httptest.NewRecorder()
+	req := httptest.NewRequest(http.MethodPut, "/control/blocked_services/update", strings.NewReader(body))
+	h.d.handleBlockedServicesUpdate(rec, req)
+
+	return rec.Code == http.StatusOK, fmt.Sprintf("%d %s", rec.Code, strings.TrimSpace(rec.Body.String()))
+}
+
+// zzC18ConfigFile is the part of the configuration that matters here.
+type zzC18ConfigFile struct {
+	BlockedServices *BlockedServices `yaml:"blocked_services" json:"blocked_services"`
+}
+
+// zzC18Load decodes a configuration document, YAML or JSON, on top of the
+// default configuration (whose schedule is schedule.EmptyWeekly(), as in
+// home/config.go) and, if it is accepted, returns a server started from it.
+func zzC18Load(t testing.TB, rng *rand.Rand, form string, doc *zzC18Doc) (h *zzC18Holder, detail string) {
+	conf := &zzC18ConfigFile{
+		BlockedServices: &BlockedServices{Schedule: schedule.EmptyWeekly(), IDs: []string{}},
+	}
+
+	var err error
+	if form == "json" {
+		body := zzC18PutBody(rng, doc)
+		err = json.Unmarshal([]byte("{\"blocked_services\":"+body+"}"), conf)
+	} else {
+		b := &strings.Builder{}
+		fmt.Fprintf(b, "blocked_services:\n  schedule:\n    time_zone: %s\n", doc.TZ)
+		for i, r := range doc.W {
+			if r == [4]int64{} && rng.Intn(2) == 0 {
+				continue
+			}
+
+			fmt.Fprintf(b, "    %s:\n      start: %s\n      end: %s\n", zzC18DayKeys[i],
+				time.Duration(r[0]*1000000+r[2]), time.Duration(r[1]*1000000+r[3]))
+		}
+
+		fmt.Fprintf(b, "  ids:\n  - %s\n", zzC18GlobalSvc)
+		err = yaml.Unmarshal([]byte(b.String()), conf)
+	}
+
+	if err != nil {
+		return nil, err.Error()
+	}
+
+	return zzC18NewHolderWith(t, conf.BlockedServices), "loaded"
 }
 
 // put sends the document through the update API; ok = answered 200.
@@ -212,48 +293,107 @@ func (h *zzC18Holder) paused(t time.Time) (ok, valid bool) {
 	return !o.globalBlocked, !o.foreign && o.now.Equal(t)
 }
 
+// zzC18World is the pair of holders a walk acts on.
+type zzC18World struct {
+	t testing.TB
+	h map[string]*zzC18Holder
+}
+
+func zzC18NewWorld(t testing.TB) (wd *zzC18World) {
+	return &zzC18World{t: t, h: map[string]*zzC18Holder{"g": zzC18NewHolder(t), "c": zzC18NewHolder(t)}}
+}
+
 type zzC18StepObs struct {
 	ok     bool
 	detail string
-	got    *zzC18Doc
+	got    zzC18Pair
 	eff    []string
 }
 
-// zzC18DoStep performs one update and observes everything the property names.
-func zzC18DoStep(h *zzC18Holder, rng *rand.Rand, st *zzC18Step) (o zzC18StepObs) {
-	o.ok, o.detail = h.put(rng, st.Doc)
-	got, err := h.get()
-	if err != nil {
-		o.detail += " / " + err.Error()
-		got = &zzC18Doc{TZ: "?"}
-	}
-
-	o.got = got
-	for k, p := range st.Eff {
-		at := time.Unix(p[0], 0)
-		if k%2 == 0 {
-			at = at.UTC()
+// observe reads back what both holders have in effect and compares Contains
+// with the given tables (nil: no comparison).
+func (wd *zzC18World) observe(rng *rand.Rand, eff map[string][][2]int64, o *zzC18StepObs) {
+	for _, name := range []string{"g", "c"} {
+		h := wd.h[name]
+		got, err := h.get()
+		if err != nil {
+			o.detail += " / " + name + ": " + err.Error()
+			got = &zzC18Doc{TZ: "?"}
 		}
 
-		if c := h.contains(at); c != (p[1] == 1) {
-			o.eff = append(o.eff, fmt.Sprintf("Contains(%s)=%v", at.UTC().Format(time.RFC3339), c))
+		if name == "g" {
+			o.got.G = got
+		} else {
+			o.got.C = got
 		}
+
+		tab := eff[name]
+		for k, p := range tab {
+			at := time.Unix(p[0], 0)
+			if k%2 == 0 {
+				at = at.UTC()
+			}
+
+			if c := h.contains(at); c != (p[1] == 1) {
+				o.eff = append(o.eff, fmt.Sprintf("%s: Contains(%s)=%v", name, at.UTC().Format(time.RFC3339), c))
+			}
+		}
+
+		// One of the probes also through the DNS path at that virtual time.
+		if len(tab) > 0 {
+			p := tab[rng.Intn(len(tab))]
+			at := time.Unix(p[0], 0)
+			if ps, valid := h.paused(at); valid && ps != (p[1] == 1) {
+				o.eff = append(o.eff, fmt.Sprintf("%s: paused(%s)=%v", name, at.UTC().Format(time.RFC3339), ps))
+			}
+		}
+	}
+}
+
+// do performs one request and observes everything the property names, on both
+// holders.
+func (wd *zzC18World) do(rng *rand.Rand, st *zzC18Step) (o zzC18StepObs) {
+	name := st.H
+	if name != "c" {
+		name = "g"
 	}
 
-	// Two of the probes also through the DNS path at that virtual time.
-	for k := 0; k < 2 && len(st.Eff) > 0; k++ {
-		p := st.Eff[rng.Intn(len(st.Eff))]
-		at := time.Unix(p[0], 0)
-		if ps, valid := h.paused(at); valid && ps != (p[1] == 1) {
-			o.eff = append(o.eff, fmt.Sprintf("paused(%s)=%v", at.UTC().Format(time.RFC3339), ps))
+	switch st.Act {
+	case "null":
+		o.ok, o.detail = wd.h[name].putNull()
+	case "yaml", "json":
+		nh, detail := zzC18Load(wd.t, rng, st.Act, st.Doc)
+		o.ok, o.detail = nh != nil, detail
+		if nh != nil {
+			wd.h[name] = nh
 		}
+	default:
+		o.ok, o.detail = wd.h[name].put(rng, st.Doc)
 	}
+
+	wd.observe(rng, st.Eff, &o)
 
 	return o
 }
 
+// install brings a new world into the given state through the update API.
+func (wd *zzC18World) install(rng *rand.Rand, p *zzC18Pair) (err error) {
+	for _, name := range []string{"g", "c"} {
+		d := p.of(name)
+		if d == nil || zzC18IsBoot(d) {
+			continue
+		}
+
+		if ok, detail := wd.h[name].put(rng, d); !ok {
+			return fmt.Errorf("cannot install %s: %s", name, detail)
+		}
+	}
+
+	return nil
+}
+
 func zzC18StepAgrees(st *zzC18Step, o zzC18StepObs) (ok bool) {
-	return o.ok == (st.Out == "ok") && o.got.equal(st.Dst) && len(o.eff) == 0
+	return o.ok == (st.Out == "ok") && o.got.G.equal(st.Dst.G) && o.got.C.equal(st.Dst.C) && len(o.eff) == 0
 }
 
 func zzC18IsBoot(d *zzC18Doc) (ok bool) {
@@ -270,14 +410,14 @@ func zzC18IsBoot(d *zzC18Doc) (ok bool) {
 	return true
 }
 
-// TestZZVerifC18Holder is direction A for the schedule in effect.
+// TestZZVerifC18Holder is direction A for the schedules in effect.
 func TestZZVerifC18Holder(t *testing.T) {
 	w := zzNewWriter(t, "VERIF_OUT")
 	defer w.close()
 
 	rng := rand.New(rand.NewSource(zzSeed()))
 	InitModule()
-	h := zzC18NewHolder(t)
+	wd := zzC18NewWorld(t)
 
 	var steps, bad, installs, rejects, resyncs, truncated int
 	zzReadNDJSON(t, "VERIF_IN", func(line []byte) {
@@ -288,7 +428,7 @@ func TestZZVerifC18Holder(t *testing.T) {
 
 		if bad >= 40 {
 			// Enough reproduced disagreements: the rest of the walk is not
-			// taken (each one costs two new servers), only counted.
+			// taken, only counted.
 			if !st.Reset {
 				truncated++
 			}
@@ -297,15 +437,15 @@ func TestZZVerifC18Holder(t *testing.T) {
 		}
 
 		if st.Reset {
-			h = zzC18NewHolder(t)
+			wd = zzC18NewWorld(t)
 
 			return
 		}
 
 		steps++
-		o := zzC18DoStep(h, rng, st)
+		o := wd.do(rng, st)
 		w.put(map[string]any{"kind": "obs", "i": st.I, "ok": zzC18B(o.ok), "get": o.got, "eff": o.eff})
-		if st.Out == "" {
+		if st.Out == "" || st.Dst == nil {
 			// Observation only (isolated re-run of a recorded step).
 			return
 		}
@@ -320,52 +460,60 @@ func TestZZVerifC18Holder(t *testing.T) {
 			return
 		}
 
-		// Reproduce in isolation: a new server, the last accepted document,
-		// then this request.
-		h2 := zzC18NewHolder(t)
-		if st.Src != nil && !zzC18IsBoot(st.Src) {
-			if ok, detail := h2.put(rng, st.Src); !ok {
-				w.put(map[string]any{"kind": "skip", "i": st.I, "err": "cannot install the source state: " + detail})
-
-				return
-			}
+		// Reproduce on new servers: install the source state of both
+		// holders, then this request.  (The orchestrator then confirms in a
+		// new process, with as much of the walk before it as is needed.)
+		wd2 := zzC18NewWorld(t)
+		if err := wd2.install(rng, st.Src); err != nil {
+			w.put(map[string]any{"kind": "unconfirmed", "i": st.I, "err": err.Error()})
 		}
 
-		o2 := zzC18DoStep(h2, rng, st)
+		o2 := wd2.do(rng, st)
 		if zzC18StepAgrees(st, o2) {
-			w.put(map[string]any{"kind": "flaky", "i": st.I, "doc": st.Doc})
-		} else {
-			bad++
-			what := "holder-rejected-update-took-effect"
-			switch {
-			case o2.ok != (st.Out == "ok") && o2.ok:
-				what = "holder-accepted"
-			case o2.ok != (st.Out == "ok"):
-				what = "holder-refused"
-			case st.Out == "ok":
-				what = "holder-installed-differs"
-			}
-
-			w.put(map[string]any{
-				"kind": "bad", "what": what, "step": st.I, "src": st.Src, "doc": st.Doc,
-				"want_out": st.Out, "got_ok": o2.ok, "reply": o2.detail, "want_dst": st.Dst, "got_dst": o2.got,
-				"eff": o2.eff, "probes": st.Eff,
-			})
+			// Not a function of the visible state: the history matters.
+			o2 = o
 		}
+
+		bad++
+		what := "holder-state-differs"
+		switch {
+		case o2.ok != (st.Out == "ok") && o2.ok:
+			what = "holder-accepted"
+		case o2.ok != (st.Out == "ok"):
+			what = "holder-refused"
+		case !o2.got.of(zzC18OtherName(st.H)).equal(st.Dst.of(zzC18OtherName(st.H))):
+			what = "holder-changed-by-request-to-the-other"
+		case st.Out == "rejected":
+			what = "holder-rejected-update-took-effect"
+		case st.Act == "null":
+			what = "holder-empty-schedule-not-empty"
+		}
+
+		w.put(map[string]any{
+			"kind": "bad", "what": what, "step": st.I, "h": st.H, "act": st.Act, "src": st.Src, "doc": st.Doc,
+			"want_out": st.Out, "got_ok": o2.ok, "reply": o2.detail, "want_dst": st.Dst, "got_dst": o2.got,
+			"eff": o2.eff, "probes": st.Eff,
+		})
 
 		// The real state has left the walk: start over from the state the
 		// walk expects.
 		resyncs++
-		h = zzC18NewHolder(t)
-		if !zzC18IsBoot(st.Dst) {
-			_, _ = h.put(rng, st.Dst)
-		}
+		wd = zzC18NewWorld(t)
+		_ = wd.install(rng, st.Dst)
 	})
 
 	w.put(map[string]any{
 		"kind": "summary", "steps": steps, "bad": bad, "installs": installs, "rejects": rejects, "resyncs": resyncs,
 		"truncated": truncated,
 	})
+}
+
+func zzC18OtherName(h string) (o string) {
+	if h == "c" {
+		return "g"
+	}
+
+	return "c"
 }
 
 func zzC18B(x bool) (b int) {
@@ -451,7 +599,10 @@ func zzC18BadDay(rng *rand.Rand) (r [4]int64) {
 	}
 }
 
-// TestZZVerifC18HolderTrace is direction B for the schedule in effect.
+// TestZZVerifC18HolderTrace is direction B for the schedules in effect: a
+// random history of requests (update, update without schedule, restart from
+// a YAML / JSON configuration) to two holders; after each one both holders
+// are read back and probed.
 func TestZZVerifC18HolderTrace(t *testing.T) {
 	w := zzNewWriter(t, "VERIF_OUT")
 	defer w.close()
@@ -464,64 +615,70 @@ func TestZZVerifC18HolderTrace(t *testing.T) {
 
 	InitModule()
 	zones := zzC18HostZones()
-	h := zzC18NewHolder(t)
+	wd := zzC18NewWorld(t)
 	lo, hi := time.Date(2000, 1, 5, 0, 0, 0, 0, time.UTC).Unix(), time.Date(2037, 12, 20, 0, 0, 0, 0, time.UTC).Unix()
+
+	split := func(d *zzC18Doc) (a, b [][2]int64) {
+		for _, r := range d.W {
+			a = append(a, [2]int64{r[0], r[1]})
+			b = append(b, [2]int64{r[2], r[3]})
+		}
+
+		return a, b
+	}
 
 	for i := 0; i < n; i++ {
 		if i%150 == 149 {
-			h = zzC18NewHolder(t)
+			wd = zzC18NewWorld(t)
 			w.put(map[string]any{"k": "reset"})
 
 			continue
 		}
 
+		st := &zzC18Step{H: []string{"g", "c"}[rng.Intn(2)], Act: []string{"put", "put", "put", "null", "yaml", "json"}[rng.Intn(6)]}
 		doc := &zzC18Doc{TZ: zones[rng.Intn(len(zones))], W: make([][4]int64, 7)}
-		for d := range doc.W {
-			doc.W[d] = zzC18RandDay(rng)
-		}
+		if st.Act == "null" {
+			doc.TZ = "Local"
+		} else {
+			for d := range doc.W {
+				doc.W[d] = zzC18RandDay(rng)
+			}
 
-		if rng.Intn(2) == 0 {
-			// One or two bad days, anywhere in the week.
-			for k := 1 + rng.Intn(2); k > 0; k-- {
-				doc.W[rng.Intn(7)] = zzC18BadDay(rng)
+			if rng.Intn(2) == 0 {
+				// One or two bad days, anywhere in the week.
+				for k := 1 + rng.Intn(2); k > 0; k-- {
+					doc.W[rng.Intn(7)] = zzC18BadDay(rng)
+				}
 			}
 		}
 
-		ok, _ := h.put(rng, doc)
-		got, err := h.get()
-		if err != nil {
-			t.Fatalf("GET: %v", err)
-		}
+		st.Doc = doc
+		o := wd.do(rng, st)
 
-		// Probes: random instants, read with the zone that GET reports.
-		loc := time.Local
-		if got.TZ != "Local" {
-			if l, lerr := time.LoadLocation(got.TZ); lerr == nil {
-				loc = l
-			}
-		}
-
-		probes := [][3]int64{}
-		for k := 0; k < 6; k++ {
-			at := time.Unix(lo+rng.Int63n(hi-lo), 0)
-			_, off := at.In(loc).Zone()
-			probes = append(probes, [3]int64{at.Unix(), int64(off), int64(zzC18B(h.contains(at)))})
-		}
-
-		split := func(d *zzC18Doc) (a, b [][2]int64) {
-			for _, r := range d.W {
-				a = append(a, [2]int64{r[0], r[1]})
-				b = append(b, [2]int64{r[2], r[3]})
+		line := map[string]any{"k": "op", "h": st.H, "act": st.Act, "ok": zzC18B(o.ok)}
+		line["tz"] = doc.TZ
+		line["w"], line["wn"] = split(doc)
+		for _, name := range []string{"g", "c"} {
+			got := o.got.of(name)
+			// Probes: random instants, read with the zone that GET reports.
+			loc := time.Local
+			if got.TZ != "Local" {
+				if l, lerr := time.LoadLocation(got.TZ); lerr == nil {
+					loc = l
+				}
 			}
 
-			return a, b
+			probes := [][3]int64{}
+			for k := 0; k < 4; k++ {
+				at := time.Unix(lo+rng.Int63n(hi-lo), 0)
+				_, off := at.In(loc).Zone()
+				probes = append(probes, [3]int64{at.Unix(), int64(off), int64(zzC18B(wd.h[name].contains(at)))})
+			}
+
+			gw, gn := split(got)
+			line[name] = map[string]any{"tz": got.TZ, "w": gw, "wn": gn, "probes": probes}
 		}
 
-		dw, dn := split(doc)
-		gw, gn := split(got)
-		w.put(map[string]any{
-			"k": "put", "tz": doc.TZ, "w": dw, "wn": dn, "ok": zzC18B(ok), "gtz": got.TZ, "gw": gw, "gwn": gn,
-			"probes": probes,
-		})
+		w.put(line)
 	}
 }
